@@ -147,6 +147,12 @@ pub fn generate(tier: Tier, rng: &mut Rng) -> Vec<Case> {
             push(&mut out, &default, format!("[{x} in {m}, {m}.contains({x}), {m}[{x}] != null]"), Some(format!("(ok (list {0} {0} {0}))", b(present))), vec!["map", "cross-numeric-membership"]);
         }
     }
+    // needles that have equality but no ordering (lists, maps, bytes, null): membership is by ==
+    for (needle, hay, present) in [("[1]", "[2, [1]]", true), ("{}", "['a', [], {}]", true), ("{'k': 1}", "[1, {'k': 1}, 2]", true), ("b'a'", "[b'a', null, 1.0]", true), ("null", "[1, null]", true), ("[]", "[[1], 'x']", false), ("[1, 2]", "[[2, 1]]", false), ("{'k': 1}", "[{'k': 2}]", false)] {
+        push(&mut out, &default, format!("[{needle} in {hay}, {hay}.contains({needle}), {hay}.exists(e, e == {needle})]"), Some(format!("(ok (list {0} {0} {0}))", b(present))), vec!["list", "unordered-needle"]);
+    }
+    // int / uint twins written together in one literal are two entries
+    push(&mut out, &default, "[size({1: 'a', 1u: 'b'}), {1: 'a', 1u: 'b'}[1], {1: 'a', 1u: 'b'}[1u], size({0u: 'z', 'k': 1, true: 2, 0: 'i'}), {0u: 'z', 0: 'i'}[0u]]".into(), Some("(ok (list (int 2) (str x61) (str x62) (int 4) (str x7a)))".into()), vec!["map", "twin-literal"]);
     // bool keys through every route
     for (m, k, present) in [("{true: 1}", "true", true), ("{true: 1}", "false", false), ("{false: 1, true: 2}", "false", true), ("{}", "true", false)] {
         push(&mut out, &default, format!("[{k} in {m}, {m}.contains({k}), {m}[{k}] != null]"), Some(format!("(ok (list {0} {0} {0}))", b(present))), vec!["map", "bool-key"]);
